@@ -7,6 +7,7 @@ mod runner;
 mod sqlgen;
 mod util;
 mod wal;
+mod wire;
 
 fn main() {
     let args: Vec<String> = std::env::args().skip(1).collect();
@@ -17,6 +18,7 @@ fn main() {
     let rest = util::Args(args[1..].to_vec());
     let code = match args[0].as_str() {
         "wal" => wal::main(&rest),
+        "wire" => wire::main(&rest),
         "probe" => probe::main(&rest),
         "db" => dbdrv::main(&rest),
         "crash" => crash::main(&rest),
